@@ -260,7 +260,8 @@ theorem step_nothing_dangling (credit tax : Nat) (vals : List CVal) (h e : Nat) 
 /-! ### crediting (transfer middleware) -/
 
 /-- a reward transfer is credited in full, to the scaled unit -/
-theorem credit_exact (old amt : Nat) : Rewards.credit old amt = old + amt * one := rfl
+theorem credit_exact (old amt : Nat) : Rewards.credit old amt = old + amt * one := by
+  unfold Rewards.credit; rw [Nat.mul_comm]
 
 /-! ### AllocateTokens over all consumers and denoms -/
 
@@ -567,7 +568,7 @@ theorem credit_backed (cr : Credits) (pool : Bal) (c : Provider.CId) (dn : Strin
   intro d
   have hs := totalCredit_setCredit cr c dn d (Rewards.credit (getCredit cr c dn) amt) hw
   have := hb d
-  simp only [getBal_setBal, Rewards.credit] at *
+  simp only [getBal_setBal, credit_exact] at *
   by_cases hd : d = dn
   · subst hd
     simp only [if_true] at hs ⊢
@@ -575,6 +576,114 @@ theorem credit_backed (cr : Credits) (pool : Bal) (c : Provider.CId) (dn : Strin
   · simp only [if_neg hd] at hs ⊢
     omega
 
+
+/-! ### every reachable provider state: credits are backed, the ledger balances -/
+
+theorem allocateTokens_backed (consumers : List (Provider.CId × List CVal × List String)) (gd : List String)
+    (credits : Credits) (pool distr cp : Bal) (tax h e : Nat) (hw : WF credits)
+    (hb : ∀ d, totalCredit credits d ≤ getBal pool d * one) :
+    let r := allocateTokens consumers gd credits pool distr cp tax h e
+    WF r.credits ∧ Backed r := by
+  intro r
+  exact foldl_inv (allocConsumer tax h e gd) (fun r => WF r.credits ∧ Backed r)
+    (fun s c hs => by
+      simp only [allocConsumer]
+      exact foldl_inv (allocStep tax h e c.1 c.2.1) (fun r => WF r.credits ∧ Backed r)
+        (fun s dn hs => ⟨(allocStep_credit tax h e c.1 c.2.1 s dn dn hs.1).1,
+                         (allocStep_backed tax h e c.1 c.2.1 s dn hs.1 hs.2).1⟩) _ s hs)
+    consumers { credits := credits, pool := pool, distr := distr, cp := cp, steps := [] } ⟨hw, hb⟩
+
+/-- the provider-side reward ledger and the two operations that change it -/
+structure Ledger where
+  credits : Credits := []
+  pool    : Bal := []
+  distr   : Bal := []
+  cp      : Bal := []
+  received : Bal := []      -- history: everything ever credited, per denom
+
+inductive LOp
+  | receive (c : Provider.CId) (d : String) (amt : Nat)       -- a reward transfer credited to consumer c
+  | allocate (consumers : List (Provider.CId × List CVal × List String)) (gd : List String) (tax h e : Nat)
+
+def Ledger.step (l : Ledger) : LOp → Ledger
+  | .receive c d amt =>
+    { l with credits := setCredit l.credits c d (Rewards.credit (getCredit l.credits c d) amt),
+             pool := setBal l.pool d (getBal l.pool d + amt),
+             received := setBal l.received d (getBal l.received d + amt) }
+  | .allocate cs gd tax h e =>
+    let r := allocateTokens cs gd l.credits l.pool l.distr l.cp tax h e
+    { l with credits := r.credits, pool := r.pool, distr := r.distr, cp := r.cp }
+
+/-- the invariant: distinct credit keys; credits backed by the pool; per denom, everything ever
+    received is in one of the three accounts, and what has been paid out plus what is still credited
+    is exactly what was received (so never more is paid out than was credited) -/
+def InvOf (credits : Credits) (pool distr cp received : Bal) : Prop :=
+  WF credits ∧
+  (∀ d, totalCredit credits d ≤ getBal pool d * one) ∧
+  (∀ d, getBal pool d + getBal distr d + getBal cp d = getBal received d) ∧
+  (∀ d, totalCredit credits d + (getBal distr d + getBal cp d) * one = getBal received d * one)
+
+def Ledger.Inv (l : Ledger) : Prop := InvOf l.credits l.pool l.distr l.cp l.received
+
+theorem ledger_init : ({} : Ledger).Inv := by
+  refine ⟨List.Pairwise.nil, fun d => ?_, fun d => ?_, fun d => ?_⟩
+  · show 0 ≤ 0 * one; exact Nat.zero_le _
+  · rfl
+  · show 0 + (0 + 0) * one = 0 * one; simp
+
+theorem invOf_receive (credits : Credits) (pool distr cp received : Bal) (c : Provider.CId) (d : String) (amt : Nat)
+    (h : InvOf credits pool distr cp received) :
+    InvOf (setCredit credits c d (Rewards.credit (getCredit credits c d) amt)) (setBal pool d (getBal pool d + amt))
+      distr cp (setBal received d (getBal received d + amt)) := by
+  obtain ⟨hw, hb, hbank, hcred⟩ := h
+  refine ⟨wf_setCredit _ _ _ _ hw, credit_backed credits pool c d amt hw hb, ?_, ?_⟩
+  · intro d'
+    simp only [getBal_setBal]
+    have := hbank d'
+    by_cases hd : d' = d
+    · subst hd; simp only [if_true]; omega
+    · simp only [if_neg hd]; exact this
+  · intro d'
+    simp only [getBal_setBal, credit_exact]
+    have hs := totalCredit_setCredit credits c d d' (Rewards.credit (getCredit credits c d) amt) hw
+    have := hcred d'
+    simp only [credit_exact] at hs
+    by_cases hd : d' = d
+    · subst hd; simp only [if_true] at hs ⊢; simp only [Nat.add_mul] at this ⊢; omega
+    · simp only [if_neg hd] at hs ⊢; omega
+
+theorem invOf_allocate (credits : Credits) (pool distr cp received : Bal)
+    (cs : List (Provider.CId × List CVal × List String)) (gd : List String) (tax h e : Nat)
+    (hi : InvOf credits pool distr cp received) :
+    InvOf (allocateTokens cs gd credits pool distr cp tax h e).credits (allocateTokens cs gd credits pool distr cp tax h e).pool
+      (allocateTokens cs gd credits pool distr cp tax h e).distr (allocateTokens cs gd credits pool distr cp tax h e).cp received := by
+  obtain ⟨hw, hb, hbank, hcred⟩ := hi
+  have hB := allocateTokens_backed cs gd credits pool distr cp tax h e hw hb
+  refine ⟨hB.1, hB.2, ?_, ?_⟩
+  · intro d
+    have := allocateTokens_bank_conserved cs gd credits pool distr cp tax h e d
+    simp only [bankTotal] at this
+    rw [this]; exact hbank d
+  · intro d
+    have := (allocateTokens_credit_conserved cs gd credits pool distr cp tax h e d hw).2
+    rw [this]; exact hcred d
+
+theorem ledger_step (l : Ledger) (op : LOp) (h : l.Inv) : (l.step op).Inv := by
+  cases op with
+  | receive c d amt => exact invOf_receive l.credits l.pool l.distr l.cp l.received c d amt h
+  | allocate cs gd tax hh e => exact invOf_allocate l.credits l.pool l.distr l.cp l.received cs gd tax hh e h
+
+/-- FOR EVERY HISTORY of reward transfers and allocations, starting from nothing: the invariant
+    holds; in particular what reached the distribution module and the community pool never exceeds
+    what was credited, and credits + payouts = receipts, exactly, in every denom -/
+theorem ledger_reachable (ops : List LOp) : (ops.foldl Ledger.step {}).Inv :=
+  foldl_inv Ledger.step Ledger.Inv (fun l op h => ledger_step l op h) ops {} ledger_init
+
+theorem never_paid_more_than_credited (ops : List LOp) (d : String) :
+    getBal (ops.foldl Ledger.step {}).distr d + getBal (ops.foldl Ledger.step {}).cp d
+      ≤ getBal (ops.foldl Ledger.step {}).received d := by
+  have := (ledger_reachable ops).2.2.1 d
+  omega
 
 /-! ### consumer side: EndBlockRD -/
 
